@@ -21,7 +21,7 @@ Local Open Scope Z_scope.
 
 (** * Storage *)
 
-Definition store := gmap bytes bytes.
+Notation store := (gmap bytes bytes).
 
 Definition sget (k : bytes) (s : store) : option bytes := s !! k.
 
@@ -127,6 +127,23 @@ Definition read_varbytes (maxn : Z) (b : bytes) : option (bytes * bytes) :=
   | None => None
   end.
 
+(** The element loop of an Array/Struct: [k] items decoded by [d]. *)
+Definition deser_list (d : Z -> bytes -> option (item * bytes * Z))
+  : nat -> Z -> bytes -> option (list item * bytes * Z) :=
+  fix go (k : nat) (lim : Z) (b : bytes) {struct k} :=
+    match k with
+    | O => Some ([], b, lim)
+    | S k' =>
+        match d lim b with
+        | None => None
+        | Some (x, b1, lim1) =>
+            match go k' lim1 b1 with
+            | None => None
+            | Some (xs, b2, lim2) => Some (x :: xs, b2, lim2)
+            end
+        end
+    end.
+
 (** deserContext.decodeBinary with its element budget [lim]; returns the
     item, the unread rest and the remaining budget. *)
 Fixpoint deser (fuel : nat) (lim : Z) (b : bytes) {struct fuel} : option (item * bytes * Z) :=
@@ -152,21 +169,7 @@ Fixpoint deser (fuel : nat) (lim : Z) (b : bytes) {struct fuel} : option (item *
             | Some (n, r1) =>
                 if n >? lim then None
                 else
-                  match
-                    (fix go (k : nat) (lim : Z) (b : bytes) {struct k} : option (list item * bytes * Z) :=
-                       match k with
-                       | O => Some ([], b, lim)
-                       | S k' =>
-                           match deser f lim b with
-                           | None => None
-                           | Some (x, b1, lim1) =>
-                               match go k' lim1 b1 with
-                               | None => None
-                               | Some (xs, b2, lim2) => Some (x :: xs, b2, lim2)
-                               end
-                           end
-                       end) (Z.to_nat n) lim r1
-                  with
+                  match deser_list (deser f) (Z.to_nat n) lim r1 with
                   | None => None
                   | Some (xs, r2, lim2) => Some (if (t =? 64)%N then IArray xs else IStruct xs, r2, lim2)
                   end
